@@ -13,8 +13,11 @@ def jobs(tier):
     for cfg, defs, tg in cfgs:
         main = (tg == '.sse')
         J += parsefam.jobs('C15', 5, tier, defines=defs, want=(('free', 'str') if q else ('free', 'str', 'ws')) if main else ('free',), nmax=(3 if q else 6) if main else (2 if q else 5), config=cfg, tagx=tg)
+        # on-demand: mode 3 = agreement with full parse + pointer lookup on valid texts (the common reference), all byte strings in mode 1
         for j in c11.jobs(tier, pid='C15' + tg + '.od', mode=1, config=cfg, defines=defs, nmax=(4 if q else 7) if main else (3 if q else 6), small=True):
-            if re.search(r'\.p(0|1|2|5|12)$', j.name): J.append(j)
+            if re.search(r'free\d+\.p(0|1|2|5|12)$', j.name): J.append(j)
+        for j in c11.jobs(tier, pid='C15' + tg + '.odv', mode=3, config=cfg, defines=defs, nmax=0, small=True):
+            if re.search(r'fill\.s\d\.k(1|2|4)\.f\d+\.p(0|2)$', j.name) and (main or re.search(r'\.f(17|33)\.', j.name)): J.append(j)
     return J
 
 
